@@ -57,7 +57,59 @@ def case_events(fn, val, env, is_prim, what=''):
     return events
 
 
-def effects_under(fn, stmts, val, env=None, keep=(), loops='stop', nm=None):
+class OpenAtom(Exception):
+    """a condition with effects under it reads something the case valuation does not fix"""
+
+    def __init__(self, what, line):
+        Exception.__init__(self, what)
+        self.what = what
+        self.line = line
+
+
+def effects_all(fn, stmts, val, keep=(), loops='stop', max_open=3):
+    """effects_under for every completion of the valuation over the *state flags* the code additionally branches on: a
+    condition that reads a data member (or a global) the case does not mention is tried both ways, provided both values can
+    occur (the member is assigned a non-constant, or both constants, somewhere in the program). Yields (completed valuation,
+    {flag: value}, effects). Anything else the valuation leaves open stops the analysis as before."""
+    import itertools
+    opened = []
+    while True:
+        try:
+            outs = []
+            for combo in itertools.product((0, 1), repeat=len(opened)):
+                v2 = dict(val)
+                v2.update(dict(zip(opened, combo)))
+                outs.append((v2, dict(zip(opened, combo)), effects_under(fn, stmts, v2, keep=keep, loops=loops, open_atoms=True)))
+            return outs
+        except OpenAtom as oa:
+            w = oa.what
+            prog_ = fn.prog
+            fld = None
+            m = re.fullmatch(r'(?:\w+\.)*(\w+)', w)
+            if m and prog_ is not None:
+                for rec, rd in prog_.records.items():
+                    for fd in rd['fields']:
+                        if fd['name'] == m.group(1) and (fd.get('t') or '').replace('const ', '') in ('bool', 'int', 'std::atomic<bool>', 'std::atomic_bool'):
+                            fld = (rec, fd['name'])
+            if fld is None or w in opened or len(opened) >= max_open:
+                raise AnalysisBroken('%s: the condition at line %s depends on `%s`, which the case does not fix' % (fn.name, oa.line, w))
+            # can the flag take both values?
+            vals = set()
+            from rules.common import written_value, const_of, strip_casts
+            for g, n, k in prog_.field_accesses(fld[0], fld[1]):
+                if k in ('write', 'rmw', 'addr', 'call'):
+                    wv = written_value(g, n) if k == 'write' else None
+                    c = const_of(strip_casts(wv)) if wv is not None else None
+                    vals.add(bool(c) if c is not None else None)
+                elif k == 'ctorinit':
+                    c = const_of(strip_casts(n)) if isinstance(n, dict) and 'k' in n else None
+                    vals.add(bool(c) if c is not None else None)
+            if not (None in vals or {True, False} <= vals):
+                raise AnalysisBroken('%s: the condition at line %s depends on `%s`, which the case does not fix' % (fn.name, oa.line, w))
+            opened.append(w)
+
+
+def effects_under(fn, stmts, val, env=None, keep=(), loops='stop', nm=None, open_atoms=False):
     """the side-effecting statements executed by `stmts` under a valuation of the conditions, in order, each as the normal form
     of its expression ("(a=b)", "(x+=1)", "f(a,b)", "(stream<<c)"); declarations are read through unless their initialiser
     calls something. if/else, ?: in conditions and switch are decided from `val`; a condition the valuation leaves open raises
@@ -160,6 +212,8 @@ def effects_under(fn, stmts, val, env=None, keep=(), loops='stop', nm=None):
                     c = cond_value(nm, ks[0], val)
                 except Unknown as u:
                     if has_effect(st):
+                        if open_atoms:
+                            raise OpenAtom(str(u), st.get('l'))
                         raise AnalysisBroken('%s: the condition at line %s depends on `%s`, which the case does not fix' % (fn.name, st.get('l'), u))
                     continue
                 br = ks[1] if c else (ks[2] if len(ks) > 2 else None)
